@@ -247,6 +247,49 @@ pub fn t234(ctx: &mut Ctx, ps: &mut Parsers, input: &str, ext: u32, conv: &str, 
             judge(ctx, ps, &base, input, t, ext, conv, "T3_block_comment", &format!("{v}|{ctxname}"));
         }
     }
+    // T3 where the braces of a component hold only blanks (`{ }`) or nothing (`{}`): a comment there is still "no quantity"
+    for w in toks.windows(2) {
+        let (a, b) = (&w[0], &w[1]);
+        if a.0 == "OpenBrace" && b.0 == "CloseBrace" {
+            let t = format!("{}[- c -]{}", &input[..b.1], &input[b.1..]);
+            judge(ctx, ps, &base, input, t, ext, conv, "T3_block_comment", "in_empty_braces");
+            ctx.count("T3_in_blank_braces");
+        }
+    }
+    for w in toks.windows(3) {
+        let (a, ws, b) = (&w[0], &w[1], &w[2]);
+        if a.0 == "OpenBrace" && ws.0 == "Whitespace" && b.0 == "CloseBrace" {
+            for t in [format!("{}[- c -]{}", &input[..ws.1], &input[ws.1..]), format!("{}[- c -]{}", &input[..ws.2], &input[ws.2..])] {
+                judge(ctx, ps, &base, input, t, ext, conv, "T3_block_comment", "in_blank_braces");
+                ctx.count("T3_in_blank_braces");
+            }
+        }
+    }
+    // one very long comment per recipe (longer than 64 KiB): between two words, at the end of a line, on a line of its own
+    {
+        let long = "x".repeat(70_000);
+        let gaps: Vec<(usize, usize)> = toks.windows(3).filter(|w| w[1].0 == "Whitespace" && matches!(w[0].0.as_str(), "Word" | "Int") && matches!(w[2].0.as_str(), "Word" | "Int") && input[w[1].1..w[1].2].chars().all(|c| c == ' ')).map(|w| (w[1].1, w[1].2)).collect();
+        if !gaps.is_empty() && rng.chance(1, 6) {
+            let (_, e) = gaps[rng.below(gaps.len())];
+            let ls = input[..e].rfind('\n').map(|p| p + 1).unwrap_or(0);
+            if !input[ls..].trim_start().starts_with(">>") && e >= body {
+                let t = format!("{}[- {long} -] {}", &input[..e], &input[e..]);
+                judge(ctx, ps, &base, input, t, ext, conv, "T3_block_comment", "padded_64k|plain");
+                ctx.count("T3_very_long_comment");
+            }
+        }
+        if rng.chance(1, 6) {
+            if let Some(s0) = starts.iter().find(|s| !is_blank(**s) && !input[**s..line_end(**s)].ends_with('\\')) {
+                let mut end = line_end(*s0);
+                if end > *s0 && input.as_bytes()[end - 1] == b'\r' {
+                    end -= 1;
+                }
+                let t = format!("{} -- {long}{}", &input[..end], &input[end..]);
+                judge(ctx, ps, &base, input, t, ext, conv, "T2_trailing", "line_comment_64k");
+                ctx.count("T2_very_long_comment");
+            }
+        }
+    }
     // T4: extra blank / comment-only lines next to existing blank lines or single-line blocks
     for s in &starts {
         let single = |st: usize| {
@@ -295,6 +338,14 @@ pub fn run(ctx: &mut Ctx) {
         let (e, c) = if ctx.rng.coin() { (all, "bundled") } else { (0, "empty") };
         t1(ctx, &mut ps, &input, e, c);
         ctx.count("inputs_random");
+    }
+    // T1 over the `---` fence family (front matter after blank lines, several fences, rule-like heads)
+    for (k, doc) in crate::mon::c05::fence_family().iter().enumerate() {
+        if ctx.mine(k as u64) && !doc.contains('\r') {
+            t1(ctx, &mut ps, doc, all, "bundled");
+            t1(ctx, &mut ps, doc, 0, "empty");
+            ctx.count("inputs_fence_family");
+        }
     }
     // T1-T4 over well-formed generated recipes
     let n = ctx.budget(1_500, 250_000);
